@@ -27,12 +27,13 @@ STRUCTS = {"S2": [{"k": "prim", "p": "u8"}, {"k": "prim", "p": "u16"}], "S3": [{
 OPQ_PTR = 0x2000
 # two enums take turns (by case number): En has gaps (JS keeps its singletons in an object keyed by discriminant), En2 has explicit
 # gap-free discriminants that do not start at 0 (the contiguous fast path may only be taken for 0..n-1)
-ENUMS = {"En": ("B", 5), "En2": ("Q", 2)}
+ENUMS = {"En": ("B", 5), "En2": ("Q", 2), "En-": ("C", -3), "En2+": ("R", 3)}
 CUR_ENUM = ["En"]
 
 
 def use_enum_of(n):
-    CUR_ENUM[0] = "En2" if n % 2 else "En"
+    """the enum and the variant used by case n: gapped 5, gap-free 2, NEGATIVE -3 (read back signed), gap-free last 3"""
+    CUR_ENUM[0] = ["En", "En2", "En-", "En2+"][n % 4]
 
 
 def rust_field(t):
@@ -40,7 +41,7 @@ def rust_field(t):
     if k == "prim":
         return abisig.PRIM_RUST[t["p"]]
     if k == "enum":
-        return CUR_ENUM[0]
+        return CUR_ENUM[0].rstrip("-+")
     if k == "opq":
         return "&'a Opq"
     if k == "slice":
@@ -79,7 +80,7 @@ class Val:
                 js = repr(v)
             return js, [struct.pack(PRIM_FMT[p], v)]
         if k == "enum":
-            return "%s.%s" % (CUR_ENUM[0], ENUMS[CUR_ENUM[0]][0]), [struct.pack("<i", ENUMS[CUR_ENUM[0]][1])]
+            return "%s.%s" % (CUR_ENUM[0].rstrip("-+"), ENUMS[CUR_ENUM[0]][0]), [struct.pack("<i", ENUMS[CUR_ENUM[0]][1])]
         if k == "opq":
             return "opq", [struct.pack("<I", OPQ_PTR)]
         if k == "slice":
@@ -173,7 +174,7 @@ def run(rep, tier):
 def run_abi(rep, tier, cases, abi, wd, rng):
     vg = Val(random.Random(lib.seed()))
     items = ["    #[diplomat::opaque]\n    pub struct Opq(pub u8);\n    #[diplomat::opaque]\n    pub struct Host(pub u8);\n"
-             "    pub enum En { A, B = 5, C }\n    pub enum En2 { P = 1, Q = 2, R = 3 }\n"]
+             "    pub enum En { A, B = 5, C = -3 }\n    pub enum En2 { P = 1, Q = 2, R = 3 }\n"]
     use_enum_of(0)
     for n, fs in STRUCTS.items():
         items.append("    pub struct %s {\n%s    }\n" % (n, "".join("        pub %s: %s,\n" % (FN[i], rust_field(f)) for i, f in enumerate(fs))))
